@@ -706,59 +706,59 @@ theorem classify_se_either_order (ty : SpType) (hty : ty.isSE = true) (rot : Sub
 /-- non-vacuity: an accepted problem on SE(2) -/
 example : ctorCheck ⟨true, 1, true, 2, ⟨true, true, .se2, [.rv, .so2]⟩⟩ = .ok ⟨true, 0, 1⟩ := rfl
 
-/-- **The state returned carries the vector that was tested** — AS CODED this is only true when the space is not compound or the
+/-- **Code before fix 1d61cd7e5 (F450)**: the state returned carries the vector that was tested — in the OLD code this is only true when the space is not compound or the
 two indices differ (`_partial`; the full statement "for every layout the constructor can return" is FALSE for the unchanged code,
-see `single_subspace_compound_overwritten_fails`): `getInformedSubstate(createFullState(st, v, r)) = v`, and the uninformed
+see `single_subspace_compound_old_overwritten_fails`): `getInformedSubstate(createFullState(st, v, r)) = v`, and the uninformed
 component holds the uninformed draw `r`.  Since `isInAnyPhs`, `keepSample` are evaluated on `v` and `heuristicSolnCost` on
 `getInformedSubstate(state)`, this is what transfers `DirectOk` / "cost < c" from the tested vector to the returned STATE. -/
-theorem created_state_carries_tested_vector_partial {α : Type} (L : Layout) (st : FullState α) (v r : List α)
+theorem created_state_old_carries_tested_vector_partial {α : Type} (L : Layout) (st : FullState α) (v r : List α)
     (hne : L.compound = false ∨ L.inf ≠ L.un)
     (hshape : L.compound = true → ∃ cs, st = .comp cs ∧ L.inf < cs.length ∧ L.un < cs.length) :
-    L.informedSubstate (L.createFullState st v r) = v ∧
-    (L.compound = true → ∃ cs', L.createFullState st v r = .comp cs' ∧ cs'[L.un]? = some r) := by
-  refine ⟨PhsRound10.createFullState_roundtrip L st v r hne (fun hc => ?_), fun hc => ?_⟩
+    L.informedSubstate (L.createFullStateOld st v r) = v ∧
+    (L.compound = true → ∃ cs', L.createFullStateOld st v r = .comp cs' ∧ cs'[L.un]? = some r) := by
+  refine ⟨PhsRound10.createFullStateOld_roundtrip L st v r hne (fun hc => ?_), fun hc => ?_⟩
   · obtain ⟨cs, e, h1, _⟩ := hshape hc
     exact ⟨cs, e, h1⟩
   · obtain ⟨cs, e, _, h2⟩ := hshape hc
     subst e
-    exact PhsRound10.createFullState_uninformed L cs v r hc h2
+    exact PhsRound10.createFullStateOld_uninformed L cs v r hc h2
 
 /-- non-vacuity: SE(2) layout, a two-component state -/
-example : (⟨true, 0, 1⟩ : Layout).informedSubstate ((⟨true, 0, 1⟩ : Layout).createFullState (.comp [[0, 0], [0]]) [1, 2] [(3 : Nat)])
+example : (⟨true, 0, 1⟩ : Layout).informedSubstate ((⟨true, 0, 1⟩ : Layout).createFullStateOld (.comp [[0, 0], [0]]) [1, 2] [(3 : Nat)])
     = [1, 2] := rfl
 
-/-- **Finding F450 (unchanged code)**: the constructor ACCEPTS a compound space with one real-vector subspace and returns
+/-- **Defect F450 (code before 1d61cd7e5)**: the constructor ACCEPTS a compound space with one real-vector subspace and returns
 `informedIdx_ = uninformedIdx_ = 0` with an uninformed part; `createFullState` then leaves the UNINFORMED draw `r` — a uniform
 sample of the whole subspace — in the informed component, whatever vector `v` was tested (in a PHS, kept, in bounds), and
 `getInformedMeasure` multiplies by the subspace measure.  So the full version of `created_state_carries_tested_vector_partial`
 fails for a layout the constructor returns, for every `v ≠ r`. -/
-theorem single_subspace_compound_overwritten_fails {α : Type} (old v r : List α) (m : Nat → α) :
+theorem single_subspace_compound_old_overwritten_fails {α : Type} (old v r : List α) (m : Nat → α) :
     ctorCheck ⟨true, 1, true, 1, ⟨true, true, .unknown, [.rv]⟩⟩ = .ok ⟨true, 0, 0⟩ ∧
-    (⟨true, 0, 0⟩ : Layout).informedSubstate ((⟨true, 0, 0⟩ : Layout).createFullState (.comp [old]) v r) = r ∧
-    (v ≠ r → (⟨true, 0, 0⟩ : Layout).informedSubstate ((⟨true, 0, 0⟩ : Layout).createFullState (.comp [old]) v r) ≠ v) ∧
+    (⟨true, 0, 0⟩ : Layout).informedSubstate ((⟨true, 0, 0⟩ : Layout).createFullStateOld (.comp [old]) v r) = r ∧
+    (v ≠ r → (⟨true, 0, 0⟩ : Layout).informedSubstate ((⟨true, 0, 0⟩ : Layout).createFullStateOld (.comp [old]) v r) ≠ v) ∧
     (⟨true, 0, 0⟩ : Layout).unMeasureG false m = some (m 0) := by
-  have h := PhsRound10.createFullState_overwritten 0 [old] v r (by simp)
+  have h := PhsRound10.createFullStateOld_overwritten 0 [old] v r (by simp)
   exact ⟨rfl, h, fun hne => by rw [h]; exact fun e => hne e.symm, rfl⟩
 
-/-- **The repaired glue (notes/C15-fix-F450.diff) is sound for EVERY accepted space**: whatever layout the classification
+/-- **The state returned carries the vector that was tested — current code (fix 1d61cd7e5), EVERY accepted space**: whatever layout the classification
 returns, the returned state's informed part is the tested vector; an uninformed part exists exactly when the indices differ
 (so the single-subspace compound space gets no extra measure factor). -/
-theorem created_state_roundtrip_repaired {α : Type} (d : SpaceDesc) (L : Layout) (hL : classify d = .ok L)
+theorem created_state_carries_tested_vector {α : Type} (d : SpaceDesc) (L : Layout) (hL : classify d = .ok L)
     (st : FullState α) (v r : List α)
     (hshape : L.compound = true → ∃ cs, st = .comp cs ∧ cs.length = d.subs.length) (m : Nat → α) :
-    L.informedSubstate (L.createFullStateFixed st v r) = v ∧
+    L.informedSubstate (L.createFullState st v r) = v ∧
     (L.hasUninformedG true = true ↔ L.compound = true ∧ L.inf ≠ L.un) ∧
     (L.unMeasureG true m = none ↔ (L.compound = false ∨ L.inf = L.un)) := by
   obtain ⟨hcmp, _, hcomp⟩ := PhsRound10.classify_ok d L hL
-  refine ⟨PhsRound10.createFullStateFixed_roundtrip L st v r (fun hc => ?_), ?_, ?_⟩
+  refine ⟨PhsRound10.createFullState_roundtrip L st v r (fun hc => ?_), ?_, ?_⟩
   · obtain ⟨cs, e, hlen⟩ := hshape hc
     obtain ⟨_, hi, _⟩ := hcomp (hcmp ▸ hc)
     exact ⟨cs, e, hlen ▸ hi⟩
   · simp [Layout.hasUninformedG]
   · cases hc : L.compound <;> by_cases he : L.inf = L.un <;> simp [Layout.unMeasureG, Layout.hasUninformedG, hc, he]
 
-/-- non-vacuity: the repaired glue on the single-subspace compound space keeps the tested vector -/
-example : (⟨true, 0, 0⟩ : Layout).informedSubstate ((⟨true, 0, 0⟩ : Layout).createFullStateFixed (.comp [[0, 0]]) [1, 2] [(3 : Nat), 4])
+/-- non-vacuity: the current glue on the single-subspace compound space keeps the tested vector -/
+example : (⟨true, 0, 0⟩ : Layout).informedSubstate ((⟨true, 0, 0⟩ : Layout).createFullState (.comp [[0, 0]]) [1, 2] [(3 : Nat), 4])
     = [1, 2] := rfl
 
 /-- with a sound glue (`view = fst`: the returned state's informed part is the tested vector) the three-argument form with the
@@ -820,6 +820,49 @@ theorem uniformInBall_radius_law_partial (n : ℕ) (t : ℝ) (h0 : 0 ≤ t) (h1 
 
 /-- non-vacuity: `t = 1/2` -/
 example : (0 : ℝ) ≤ 1 / 2 ∧ (1 / 2 : ℝ) ≤ 1 := by norm_num
+
+/-- **Finding F451 (unchanged code)**: an SE(2)/SE(3)/Dubins/ReedsShepp-TYPED compound space whose two subspaces are BOTH
+rotations passes the constructor (no subspace is foreign) with `informedIdx_ = 0` left at its default: the "informed" subspace
+is a rotation, the PHSs are 1-dimensional intervals of raw angle values and the focal sum ignores the wrap-around — the heuristic
+over-estimates, states that can improve the solution are excluded (replay `notes/C15-repro-F451.cpp`: start yaw 3.0, goal yaw −3.0,
+true cost-to-go 0.283, bound 1.0: the direct sampler never succeeds and reports an informed measure of 0 while the rejection
+sampler succeeds 677/1000).  The repaired classification (`classifyG true`: one R^n AND one SO(n) subspace) rejects these. -/
+theorem se_typed_two_rotations_accepted_fails (ty : SpType) (hty : ty.isSE = true) (a b : SubType)
+    (ha : a = .so2 ∨ a = .so3) (hb : b = .so2 ∨ b = .so3) :
+    classify ⟨true, true, ty, [a, b]⟩ = .ok ⟨true, 0, 1⟩ ∧ [a, b][0]? ≠ some SubType.rv ∧
+    classifyG true ⟨true, true, ty, [a, b]⟩ = .error .notOneOfEach := by
+  obtain ⟨h1, h2⟩ := PhsRound10.classify_two_rotations ty hty a b ha hb
+  refine ⟨h1, ?_, h2⟩
+  rcases ha with rfl | rfl <;> simp
+
+/-- **Repaired classification (notes/C15-fix-F451.diff)**: every SE-typed compound it accepts has a REAL-VECTOR informed subspace
+and a rotation as the uninformed one, at different indices — and on those spaces it returns exactly what the unchanged code
+returns (the repair only rejects more). -/
+theorem classification_repaired_informed_is_real_vector (d : SpaceDesc) (L : Layout) (h : classifyG true d = .ok L)
+    (hc : d.compound = true) (hse : d.ty.isSE = true) :
+    classify d = .ok L ∧ d.subs[L.inf]? = some .rv ∧
+    (d.subs[L.un]? = some .so2 ∨ d.subs[L.un]? = some .so3) ∧ L.inf ≠ L.un :=
+  PhsRound10.classifyG_strict_se d L h hc hse
+
+/-- non-vacuity: SE(3) in the library's order is accepted by the repaired classification -/
+example : classifyG true ⟨true, true, .se3, [.rv, .so3]⟩ = .ok ⟨true, 0, 1⟩ := rfl
+
+/-- **Polar factorisation of the uniform law on the ball** (sharpens `uniformInBall_radius_law_partial`), every dimension
+`n+1`, EVERY set `S` of directions, every `t > 0`: `vol{x : ‖x‖ < t, x/‖x‖ ∈ S} = t^(n+1) · vol{x : ‖x‖ < 1, x/‖x‖ ∈ S}` — under
+the uniform law on the unit ball the radius is independent of the direction and has CDF `t^(n+1)`; the direction has the cone law
+`σ(S) = vol{x ∈ ball : x/‖x‖ ∈ S} / vol(ball)`.  `uniformInBall` draws `dir` and `u` independently and returns `u^(1/(n+1))·dir`,
+whose radius has exactly this CDF (`uniformInBall_radius_law_partial`); so its law agrees with the uniform law on every set
+`{‖x‖ < t, x/‖x‖ ∈ S}` as soon as `dir` has the cone law σ.  EXACTLY what is missing for the full clause: (i) `dir ~ σ`, i.e.
+`uniformNormalVector` (normalised Gaussian) is rotation invariant — a statement about boost/mt19937 (C20); (ii) the π-λ
+extension from these product sets to all Borel sets (Mathlib: `Measure.ext_of_generateFrom_of_iUnion`, not done). -/
+theorem uniform_ball_polar_factorisation (n : ℕ) (S : Set (EuclideanSpace ℝ (Fin (n + 1)))) (t : ℝ) (ht : 0 < t) :
+    MeasureTheory.volume {x : EuclideanSpace ℝ (Fin (n + 1)) | ‖x‖ < t ∧ x ≠ 0 ∧ ‖x‖⁻¹ • x ∈ S}
+      = ENNReal.ofReal (t ^ (n + 1))
+        * MeasureTheory.volume {x : EuclideanSpace ℝ (Fin (n + 1)) | ‖x‖ < 1 ∧ x ≠ 0 ∧ ‖x‖⁻¹ • x ∈ S} :=
+  PhsUniform.ball_polar_factorisation n S t ht
+
+/-- non-vacuity: a radius -/
+example : (0 : ℝ) < 1 / 2 := by norm_num
 
 /-! ## Non-vacuity of the geometric hypotheses -/
 
